@@ -341,4 +341,90 @@ fn mat_then_is_swapped_compose_row0() {
     assert!(ab.0[0][0] == s.x() && ab.0[0][1] == 0.0 && ab.0[0][2] == 0.0 && ab.0[0][3] == t.x());
 }
 
+fn inverse_is_two_sided(m: &Mat4x4<RealToReal<3>>, tol: F) -> bool {
+    let inv = m.inverse();
+    let (l, r) = (inv.compose(m), m.compose(&inv));
+    let mut ok = true;
+    let mut i = 0;
+    while i < 4 {
+        let mut j = 0;
+        while j < 4 {
+            let e: F = if i == j { 1.0 } else { 0.0 };
+            let (dl, dr) = (l.0[i][j] - e, r.0[i][j] - e);
+            ok = ok && dl >= -tol && dl <= tol && dr >= -tol && dr <= tol;
+            j += 1;
+        }
+        i += 1;
+    }
+    ok
+}
+
+macro_rules! inverse_harness {
+    ($name:ident, $rows:expr, $tol:expr) => {
+        #[kani::proof]
+        #[kani::unwind(6)]
+        fn $name() {
+            let m: Mat4x4<RealToReal<3>> = Matrix::new($rows);
+            kani::cover!(true);
+            assert!(inverse_is_two_sided(&m, $tol));
+        }
+    };
+}
+// f32's cos(90 deg): the "zero" entries of a quarter turn built by rotate_*(degs(90.0))
+const C90: F = -4.371139e-8;
+
+// The inverse() obligations are bounded stand-ins on CONCRETE transforms (no symbolic input; every symbolic formulation of the
+// Gauss-Jordan elimination timed out, DESIGN.md C09): each decides "inverse() does not panic and inverse ∘ m = m ∘ inverse = I"
+// for one matrix, exactly where all intermediate values are dyadic, within 1e-6 per element for the quarter turns.
+// @ob props=C09 tier=quick kind=B cfg=core-std timeout=1200
+// @fn Mat4x4::inverse ; Mat4x4::determinant ; Matrix::compose
+// @bound one concrete transform: scale(-1, 2, 0.5) followed by translate(3, -5, 7) (negative determinant)
+// @clause the inverse of a mirrored non-uniform scaling with translation exists (no panic although the determinant is negative) and composed with the original gives exactly the identity in both orders
+inverse_harness!(mat_inverse_mirrored_scale_translate, [[-1.0, 0.0, 0.0, 3.0], [0.0, 2.0, 0.0, -5.0], [0.0, 0.0, 0.5, 7.0], [0.0, 0.0, 0.0, 1.0]], 0.0);
+// @ob props=C09 tier=quick kind=B cfg=core-std timeout=1200
+// @fn Mat4x4::inverse ; Matrix::compose
+// @bound one concrete transform: the uniform scaling by -2 (determinant -8)
+// @clause the inverse of a negative uniform scaling exists and is two-sided, exactly
+inverse_harness!(mat_inverse_negative_uniform_scale, [[-2.0, 0.0, 0.0, 0.0], [0.0, -2.0, 0.0, 0.0], [0.0, 0.0, -2.0, 0.0], [0.0, 0.0, 0.0, 1.0]], 0.0);
+// @ob props=C09 tier=quick kind=B cfg=core-std timeout=1200
+// @fn Mat4x4::inverse ; Matrix::compose
+// @bound one concrete transform: the reflection swapping x and y, followed by translate(1, 2, 3) (determinant -1; needs a row exchange)
+// @clause the inverse of an axis-swapping reflection with translation exists and is two-sided, exactly
+inverse_harness!(mat_inverse_axis_swap_reflection, [[0.0, 1.0, 0.0, 1.0], [1.0, 0.0, 0.0, 2.0], [0.0, 0.0, 1.0, 3.0], [0.0, 0.0, 0.0, 1.0]], 0.0);
+// @ob props=C09 tier=quick kind=B cfg=core-std timeout=1200
+// @fn Mat4x4::inverse ; Matrix::compose
+// @bound one concrete transform: the cyclic axis permutation x->y->z->x (two row exchanges)
+// @clause the inverse of a cyclic axis permutation exists and is two-sided, exactly
+inverse_harness!(mat_inverse_cyclic_permutation, [[0.0, 0.0, 1.0, 0.0], [1.0, 0.0, 0.0, 0.0], [0.0, 1.0, 0.0, 0.0], [0.0, 0.0, 0.0, 1.0]], 0.0);
+// @ob props=C09 tier=quick kind=B cfg=core-std timeout=1200
+// @fn Mat4x4::inverse ; Matrix::compose
+// @bound one concrete transform: the integer shear x += 2y, y += 3z
+// @clause the inverse of an integer shear exists and is two-sided, exactly
+inverse_harness!(mat_inverse_integer_shear, [[1.0, 2.0, 0.0, 0.0], [0.0, 1.0, 3.0, 0.0], [0.0, 0.0, 1.0, 0.0], [0.0, 0.0, 0.0, 1.0]], 0.0);
+// @ob props=C09 tier=quick kind=B cfg=core-std timeout=1200
+// @fn Mat4x4::inverse ; Matrix::compose
+// @bound one concrete transform: the quarter turn about z as rotate_z(degs(90.0)) produces it in f32 (diagonal -4.371139e-8 instead of 0: a tiny non-zero pivot, condition number 1)
+// @clause the inverse of a well-conditioned transform whose elimination meets a tiny non-zero diagonal element is still two-sided within 1e-6 per element (partial pivoting; pivoting on the first non-zero element loses all accuracy here)
+inverse_harness!(mat_inverse_quarter_turn_z, [[C90, -1.0, 0.0, 0.0], [1.0, C90, 0.0, 0.0], [0.0, 0.0, 1.0, 0.0], [0.0, 0.0, 0.0, 1.0]], 1e-6);
+// @ob props=C09 tier=quick kind=B cfg=core-std timeout=1200
+// @fn Mat4x4::inverse ; Matrix::compose
+// @bound one concrete transform: the f32 quarter turn about y, followed by translate(3, -5, 7)
+// @clause the same for a quarter turn about y with a translation part
+inverse_harness!(mat_inverse_quarter_turn_y, [[C90, 0.0, 1.0, 3.0], [0.0, 1.0, 0.0, -5.0], [-1.0, 0.0, C90, 7.0], [0.0, 0.0, 0.0, 1.0]], 1e-6);
+
+// @ob props=C09 tier=thorough kind=B cfg=core-std timeout=3600
+// @fn Mat4x4::inverse ; Mat4x4::determinant ; Matrix::compose
+// @bound linear part fixed to the mirrored scaling diag(-1, 2, 0.5); complete in the translation (every t with |t_i| <= 1e6)
+// @clause for EVERY translation part the inverse of "mirrored scaling, then translate(t)" exists (negative determinant, no panic) and composes with the original to the identity in both orders, exactly up to 1e-30 per element (all intermediate products are by powers of two; only halving a subnormal component rounds)
+#[cfg(not(verif_skip_mat_inverse_translation_family))]
+#[kani::proof]
+#[kani::unwind(6)]
+fn mat_inverse_translation_family() {
+    let (tx, ty, tz) = (any_in(-1.0e6, 1.0e6), any_in(-1.0e6, 1.0e6), any_in(-1.0e6, 1.0e6));
+    let m: Mat4x4<RealToReal<3>> = Matrix::new([[-1.0, 0.0, 0.0, tx], [0.0, 2.0, 0.0, ty], [0.0, 0.0, 0.5, tz], [0.0, 0.0, 0.0, 1.0]]);
+    kani::cover!(tx > 1.0 && ty < -1.0);
+    // 1e-30, not 0: halving a subnormal translation component rounds, so m * inverse can be off by one subnormal ulp there
+    assert!(inverse_is_two_sided(&m, 1e-30));
+}
+
 include!("gen/dispatch_mat.rs");
